@@ -6,9 +6,13 @@ sys.path.insert(0, os.path.join(VERIF, "gen"))
 import rslex
 
 ID = "C01"
-GEN = ["PanicSites"]
+GEN = ["PanicSites", "SiteShapes"]
 THEOREMS = ["C01_ledger_complete", "C01_indent_shape", "C01_sites_partial_indent", "C01_indent_bounded",
-            "C01_indent_exact_inside", "C01_sites_partial_nesting"]
+            "C01_indent_exact_inside", "C01_sites_partial_nesting",
+            "C01_site_texts_current", "C01_site_index_of", "C01_site_nth_list", "C01_site_nth_arglist", "C01_site_index_map_pair",
+            "C01_site_enumerate_plus_one", "C01_site_zip_access", "C01_site_insert_index", "C01_site_slice_start",
+            "C01_site_slice_end", "C01_site_str_index", "C01_site_deep_remove", "C01_site_guarded_index", "C01_site_conv_names",
+            "C01_site_slice_full", "C01_site_do_indent_no_nl", "C01_site_call_args_len", "C01_site_opt_back"]
 COQ_HEADER = "From Coq Require Import ZArith NArith List.\nFrom RV Require Import Run.C01.\nImport ListNotations."
 RUN_EXPR = "Run.C01.run"
 SHARD = 2000
@@ -32,6 +36,7 @@ TECHNIQUE = "Coq proof of a generated panic-site ledger + site lemmas; generatio
 EXTREMES = ["0", "-0", "1", "-1", "0.5", "1e308", "-1e308", "1e-320", "9223372036854775807", "-9223372036854775808",
             "9223372036854775806", "4294967296", "2147483648", "18446744073709551616", "1e19", "-1e19", "255", "256", "360", "100%", "1e3px",
             "(0/0)", "(1/0)", "(-1/0)", "math.div(1,0)", "math.div(0,0)"]
+SMALL = ["2", "3", "4", "5", "6", "-2", "-3", "-4", "-5", "-6"]
 SPECIAL = list("{}()[]#&@:;,.\"'\\/*!%+-$~>^=|_ \n") + ["#{", "/*", "*/", "//", "&-", "&b", "@at-root", "!important", "\\", "\\0", "\\10ffff ", "url(", "calc(", "var(--"]
 
 TEMPLATES = [
@@ -75,6 +80,20 @@ TEMPLATES = [
     "@use \"sass:string\"; a {{ b: string.slice(\"héllo😀\", {a}, {b}) string.insert(\"a\", \"b\", {a}) }}",
     "@use \"sass:list\"; a {{ b: list.nth([a b], {a}) list.set-nth(a b, {a}, c) list.slash({a}, {b}) }}",
     "@use \"sass:color\"; a {{ b: color.adjust(red, $hue: {a}, $alpha: {b}) color.scale(red, $lightness: {a}) color.change(red, $red: {a}) }}",
+    # aimed at the sites proved in Proofs/C01Sites.v (boundaries of index_of, arglists, zip, deep-remove, str-index, guards, opt_back)
+    "a {{ b: nth((), {a}) set-nth((), {a}, x) }}", "a {{ b: nth((k: v, l: w), {a}) nth(x, {a}) }}",
+    "@function f($a...) {{ @return nth($a, {a}) }} a {{ b: f(1, 2, $x: 3, $y: 4) f() f($z: 1) }}",
+    "@function f($a...) {{ @return set-nth($a, {a}, q) index($a, 2) length($a) }} a {{ b: f(1, 2, $x: 3) }}",
+    "a {{ b: index((a: 1, b: 2), a 1) index((a: 1), b 1 2) index((a: 1), (a, 1)) index(1 2 3, {a}) }}",
+    "a {{ b: zip() zip(1 2, (), 3) zip((a: 1), x, 1 2 3) inspect(zip(1 2 3, a b)) }}",
+    "@use \"sass:map\"; a {{ b: inspect(map.deep-remove((a: (b: (c: 1))), a, b, c, d)) inspect(map.deep-remove((a: 1), a)) inspect(map.deep-remove((a: (b: 1)), a, b)) inspect(map.deep-remove((), {a})) }}",
+    "a {{ b: str-index(\"héllo😀x\", \"x\") str-index(\"\", \"\") str-index(\"abc\", \"\") str-insert(\"héllo\", \"x\", {a}) str-slice(\"héllo\", {a}, {b}) }}",
+    "a {{ b: hsl(from red h s l / {a}) rgb((from red r g b) / 1) hsl(1 2 3 / 4 / 5) hsl(1, 2) hwb(1 2) rgb(1 2 / 3) }}",
+    "@function calc() {{ @return 1 }}", "@function url($a) {{ @return 1 }}", "\t@function\telement(){{}}", "a {{ @function f() {{ @return 1 }} @mixin m {{ @mixin n {{ }} }} }}",
+    "@if true {{ @mixin m {{ }} @function f() {{ @return 1 }} }}", "@use \"sass:math\" as m; m.$pi: {a}; $x: {a}; m.$nope: 1;", "$a: 1; a {{ $b: {a} !global; c.$d: 1 }}",
+    "& {{ b: c }} a {{ & {{ d: e }} @at-root & {{ f: g }} }}", "a {{ /* x */ b {{ /* y */ c: d; /* z */ }} }} /* w */",
+    "$a, $b: 1 2; @each $x in 1 2 {{ a {{ b: $x }} }} @each $x, $y, $z in (1 2, 3) {{ a {{ b: $x $y $z }} }}",
+    "a {{ b: foo(1, $x: 2, $y: 3) length(foo($a: 1)) }} @media screen {{ /* only */ }} @font-face {{ /* c */ }}",
 ]
 
 
@@ -200,6 +219,11 @@ def gen_cases(ctx, tier):
                 add(t.format(a=rng.choice(EXTREMES), b=rng.choice(EXTREMES)))
             except (KeyError, IndexError):
                 add(t)
+    # (b') index-like templates also get every small index around the list / string lengths (boundaries of index_of & co.)
+    for t in TEMPLATES:
+        if any(w in t for w in ("nth", "str-", "slice", "insert", "index(", "deep-remove")) and "{a}" in t:
+            for a in SMALL:
+                add(t.format(a=a, b=rng.choice(SMALL + EXTREMES)))
     # (c) corpus mutation
     pool = [s for _, s in spec_corpus.spec_inputs()]
     n_m = 2500 if tier == "quick" else 150000
